@@ -125,6 +125,10 @@ def handleProv (kv : List (String × String)) (impl : String) : String × String
     let deliv := (List.range n).filterMap fun k => deliver ring k
     "ok ring=" ++ String.intercalate "|" (deliv.map fun a => esc (String.ofList a.name)) ++
       " sc=" ++ String.intercalate ";" (dedup (deliv.map descr))
+  -- index −1 for a leading sleep() is the site of property C13 (its repair changes the outcome): predict nothing there
+  let mobs := match ring with
+    | .panic "index" => "-"
+    | _ => mobs
   let verdict :=
     match domain reqNames scs with
     | some why => "skip:" ++ why
@@ -394,7 +398,7 @@ def handleGun (kv : List (String × String)) (impl : String) : String × String 
   let ringO := decodeAmmo (reqDefOf reqs scs) scs
   match ringO with
   | .err e => (outcomeStr (ringO.bind fun _ => (.ok () : Outcome Unit)) fun _ => "", "skip:provider-" ++ e)
-  | .panic p => ("panic:" ++ p, "skip:provider-panic(C13)")
+  | .panic _ => ("-", "skip:provider-panic(C13)")
   | .ok ring =>
     let shots : List ShotIn := (List.range nShots).filterMap fun j => (deliver ring j).map fun sc => { idx := j, sc }
     let shotsOf (i : Nat) := shots.filter fun s => s.idx % nInst == i
@@ -407,7 +411,8 @@ def handleGun (kv : List (String × String)) (impl : String) : String × String 
       runInstance (world reqs rows i ((oracles.getD i "").splitOn ",")) rows (shotsOf i)
         (if useFeed then some (feedsOf i) else none) Iter.empty []
     let outs := (List.range nInst).map fun i => runI i (!closed)
-    if outs.any (·.isNone) then ("panic", if rows == 0 then "skip:empty-source(C13)" else "skip:model-panic") else
+    -- a Go panic inside a shot (empty data source: `% 0`, `v[-1]`, `Intn(0)`) is the site of property C13: nothing is predicted
+    if outs.any (·.isNone) then ("-", if rows == 0 then "skip:empty-source(C13)" else "skip:model-panic") else
     let outs' := outs.filterMap id
     let parts := (List.range nInst).zip outs' |>.map fun (i, (evs, _, _)) =>
       s!"i{i}=" ++ String.intercalate "|" evs.flatten
